@@ -5,6 +5,7 @@ Monitor: the exchange at the WSGI boundary (status, Location) and the exchange o
 requesting that Location, judged by an independent canonicalisation function and an independent
 model of the effective slash mode."""
 import json
+import re
 from urllib.parse import urlsplit, unquote_to_bytes
 
 from ..common import Rng
@@ -34,7 +35,7 @@ SEGS = ['abc', 'a b', 'a?b', 'a#b', 'a%b', 'a%41b', 'a;b', 'a&b=c', 'é', 'a+b',
         # text that Unicode normalisation would rewrite (decomposed accents, conjoining jamo, compatibility characters)
         'cafe\u0301', '\u1112\u1161\u11ab', '\u212b', 'ﬁ', 'A\u030a', '\u2126hm']
 QUERIES = ['', 'k=v', 'a=1&b=2', 'x=%41', 'q=a+b', 'q=a%20b', 'u=http://x/y?z=1', 'a;b', 'x=%E9', 'empty=', '=', '&&', 'k=v?w',
-           'a=1&a=2', 'x=%2F%2F']
+           'a=1&a=2', 'x=%2F%2F', 'tags[]=a&tags[]=b', 'a[0]=1', 'q=[x]&r={y}', "q='1'&z=(2)", 'q=a|b^c`d', 'q=what?', '?', 'a=1&b=??', 'next=/item/k/?', 'q=%3F', '&', 'q=a&', 'x=1;']
 METHODS = ['GET', 'HEAD', 'POST', 'PUT', 'DELETE', 'OPTIONS', 'PATCH', 'TRACE', 'CONNECT']
 ROUTES = [
     # (label, pattern, kind)
@@ -82,12 +83,40 @@ def build_tree(case):
     route = Route(r['pattern'], make_ep(r['label'], names_of(r['pattern'])), slash_mode=r['mode'], **kw)
     levels = case['levels']
     inner = Application([], slash_mode=levels[-1]['mode'])
+    if case.get('leaf_sibling'):
+        # an earlier route on the same path without the trailing slash, for a method (TRACE) that requests to such a tree never use: it is
+        # passed over, and what it is (a leaf) must not rub off on the branch route that follows
+        leaf = Route(r['pattern'].rstrip('/') or '/', make_ep(r['label'] + '_leaf', names_of(r['pattern'])), slash_mode=r['mode'],
+                     methods=['TRACE'])
+        inner.add(leaf, inherit_slashes=r['inherit'])
     inner.add(route, inherit_slashes=r['inherit'])
     for k in range(len(levels) - 2, -1, -1):
         lv = levels[k]
         inner = Application([SubApplication(lv['prefix'], inner, inherit_slashes=lv['inherit'])],
                             slash_mode=lv['mode'])
     return inner
+
+
+_URI_QUERY_CHARS = set("abcdefghijklmnopqrstuvwxyzABCDEFGHIJKLMNOPQRSTUVWXYZ0123456789-._~!$&'()*+,;=:@/?%")
+
+
+def query_changed(sent, got):
+    """'the query string unchanged': byte for byte when every character of it may stand in a URI query as it is (RFC 3986:
+    pchar, '/', '?'); characters that may not ('[', ']', '{', '}', '|', '^', '`', blanks, quotes, ...) have to be escaped to
+    put the query into a Location at all - then the escaped query must still say the same: same bytes after
+    percent-decoding, same parameters"""
+    if sent == got:
+        return None
+    if set(sent) <= _URI_QUERY_CHARS and not re.search(r'%(?![0-9A-Fa-f]{2})', sent):
+        return 'every character of the query is a URI query character, yet it was rewritten'
+    from urllib.parse import parse_qsl, unquote_to_bytes as u2b
+    if u2b(sent) != u2b(got):
+        return 'it does not decode to the same bytes'
+    if parse_qsl(sent, keep_blank_values=True, encoding='latin-1') != parse_qsl(got, keep_blank_values=True, encoding='latin-1'):
+        return 'it does not parse into the same parameters'
+    if re.search(r'[^\x21-\x7e]', got) or any(c in got for c in '"<>\\^`{|}'):
+        return 'it is not a valid URI query'
+    return None
 
 
 def effective_mode(case):
@@ -137,10 +166,15 @@ def gen_case(rng):
         segs = [seg(rng), seg(rng)]
     else:
         segs = [seg(rng) for _ in range(rng.randint(1, 4))]
-    return {'levels': levels, 'route': route, 'segs': segs, 'noise': rng.pick(NOISES),
+    case = {'levels': levels, 'route': route, 'segs': segs, 'noise': rng.pick(NOISES),
             'query': rng.pick(QUERIES) if rng.chance(0.7) else '', 'method': rng.pick(METHODS + ['GET'] * 6 + ['POST'] * 3),
             'script': rng.pick(['', '', '/mount', '/m/n', '/café x']),
             'warmup': rng.pick(['first=1&page=2', 'z', '']) if rng.chance(0.3) else None}
+    # (in strict mode a leaf twin would turn the 404 of a slash-less path into a 405: another question, not asked here)
+    case['leaf_sibling'] = pattern.endswith('/') and pattern != '/' and effective_mode(case)[0] != 'strict' and rng.chance(0.35)
+    if case['leaf_sibling'] and case['method'] == 'TRACE':
+        case['method'] = 'GET'
+    return case
 
 
 NOISES = ['canonical', 'no-trailing', 'double-inner', 'double-trailing', 'triple-trailing', 'double-everything',
@@ -191,7 +225,7 @@ _tree_cache = {}
 
 def cached_tree(case):
     """one long-lived application per tree description: caches and memos inside the framework get a chance to go stale"""
-    key = json.dumps([case['levels'], case['route']], sort_keys=True)
+    key = json.dumps([case['levels'], case['route'], bool(case.get('leaf_sibling'))], sort_keys=True)
     if key not in _tree_cache:
         if len(_tree_cache) > 400:
             _tree_cache.clear()
@@ -345,9 +379,12 @@ def check_location(sh, case, app, ex, canon, bad):
     if decoded != script + canon:
         bad('location-wrong-path', 'Location %r decodes to path %r, expected %r' % (loc, decoded, script + canon))
         return
-    if sp.query != case['query']:
-        bad('location-wrong-query', 'Location %r carries query %r, request had %r' % (loc, sp.query, case['query']))
+    problem = query_changed(case['query'], sp.query)
+    if problem:
+        bad('location-wrong-query', 'Location %r carries query %r, request had %r: %s' % (loc, sp.query, case['query'], problem))
         return
+    if sp.query != case['query']:
+        sh.hit('query-escaped-where-a-URI-needs-it')
     # follow it: what a client would send for that Location
     full = unquote_to_bytes(sp.path).decode('latin-1')
     sn = probe.wsgi_str(script)
@@ -373,8 +410,8 @@ def check_location(sh, case, app, ex, canon, bad):
     if got.get('rid') != case['route']['label'] or got.get('params') != exp:
         bad('followup-wrong-resource', 'following %r reached %r with %r, expected %r with %r'
             % (loc, got.get('rid'), got.get('params'), case['route']['label'], exp))
-    elif got.get('query') != case['query']:
-        bad('followup-wrong-query', 'following %r delivered query %r' % (loc, got.get('query')))
+    elif query_changed(case['query'], got.get('query') or ''):
+        bad('followup-wrong-query', 'following %r delivered query %r: %s' % (loc, got.get('query'), query_changed(case['query'], got.get('query') or '')))
 
 
 def hostile_queries(sh, rng, n):
